@@ -377,7 +377,7 @@ func c15SortKeysOK(before, after *val.V, deep bool) string {
 	for i, k := range before.Keys {
 		found := false
 		for j, ak := range after.Keys {
-			if ak.S == k.S {
+			if ak.S == k.S && ak.K == k.K {
 				found = true
 				if deep {
 					if m := c15SortKeysOK(before.Vals[i], after.Vals[j], deep); m != "" {
@@ -389,7 +389,7 @@ func c15SortKeysOK(before, after *val.V, deep bool) string {
 			}
 		}
 		if !found {
-			return "key " + k.S + " lost"
+			return "key " + k.String() + " lost: " + after.String()
 		}
 	}
 	return ""
@@ -488,7 +488,7 @@ func c15Run(c *fw.Ctx) error {
 			do(c15Case{Kind: "stability", Els: []string{sb.String()}}, 4e6+int64(p))
 		}
 	}
-	keys := []string{"b", "a", "ab", "B", "1", "c"}
+	keys := []string{"b", "a", "ab", "B", "1", "c", `"1"`} // 1 and "1": an integer and a string key with the same text
 	var perm func(cur []string, used []bool)
 	perm = func(cur []string, used []bool) {
 		if len(cur) > 0 {
